@@ -80,7 +80,7 @@ pub fn run(tier: Tier) -> i32 {
                         continue; // C05
                     }
                     if o0.consumed() != Some(q.bytes.len()) {
-                        rep.violation(&format!("C10|consumed!=own-length|{}|{}", q.name.split('-').next().unwrap(), o0.class()), ex.depth_of(i) as u64, || (format!("decap({}) alone -> {}: consumed length differs from the packet length {}", q.name, o0.brief(), q.bytes.len()), json!({"slots": slots, "history": hist(), "state": format!("{:?}", st.rx), "packet": hex(&q.bytes)})));
+                        rep.violation(&format!("C10|consumed!=own-length|{}|{}", q.name.split('-').next().unwrap(), o0.class()), ex.depth_of(i) as u64, || (format!("decap({}) alone -> {}: consumed length differs from the packet length {}", q.name, o0.brief(), q.bytes.len()), json!({"model": format!("receiver-{}-slots", slots), "slots": slots, "history": hist(), "state": format!("{:?}", st.rx), "packet": hex(&q.bytes)})));
                     }
                     for (tn, t) in &tl {
                         let mut input = q.bytes.clone();
@@ -92,7 +92,7 @@ pub fn run(tier: Tier) -> i32 {
                         if o1 != o0 || s1 != s0 {
                             let tk = if tn.starts_with("pkt:") { "packet" } else { tn.as_str() };
                             let what = if o1 != o0 { "outcome" } else { "successor-state" };
-                            rep.violation(&format!("C10|depends-on-following-bytes|{}|{}|{}|{}", what, q.name.split('-').next().unwrap(), o0.class(), tk), ex.depth_of(i) as u64, || (format!("decap({}) alone -> {}; followed by {} -> {}", q.name, o0.brief(), tn, o1.brief()), json!({"slots": slots, "history": hist(), "state": format!("{:?}", st.rx), "packet": hex(&q.bytes), "tail": hex(t)})));
+                            rep.violation(&format!("C10|depends-on-following-bytes|{}|{}|{}|{}", what, q.name.split('-').next().unwrap(), o0.class(), tk), ex.depth_of(i) as u64, || (format!("decap({}) alone -> {}; followed by {} -> {}", q.name, o0.brief(), tn, o1.brief()), json!({"model": format!("receiver-{}-slots", slots), "slots": slots, "history": hist(), "state": format!("{:?}", st.rx), "packet": hex(&q.bytes), "tail": hex(t)})));
                         }
                     }
                 }
@@ -102,7 +102,7 @@ pub fn run(tier: Tier) -> i32 {
                     acc.transitions += 1;
                     acc.compared += 1;
                     if o != (DecapOut::Padding { consumed: n }) {
-                        rep.violation(&format!("C10|padding|{}", o.class()), ex.depth_of(i) as u64, || (format!("decap of {} zero bytes -> {}", n, o.brief()), json!({"slots": slots, "history": hist()})));
+                        rep.violation(&format!("C10|padding|{}", o.class()), ex.depth_of(i) as u64, || (format!("decap of {} zero bytes -> {}", n, o.brief()), json!({"model": format!("receiver-{}-slots", slots), "slots": slots, "history": hist()})));
                     }
                 }
             }
